@@ -656,10 +656,12 @@ class Unit:
         self.functions = []      # names of extracted functions (for obligation counting)
         self.scans = []          # syntactic frame conditions on extracted text: (props, name, ok, description)
 
-    def scan(self, props, name, ok, desc):
+    def scan(self, props, name, ok, desc, on_fail="violation"):
+        # on_fail="undecided": an ANCHOR on the exact text of a construct neither verifier can reach; a mismatch means the
+        # argument no longer applies (exit 2), not that the property is violated
         """a syntactic obligation on the extracted text (e.g. "the log is written only through fetch_or"); reported in
         the evidence under engine `scan`, never presented as a solver-discharged proof"""
-        self.scans.append((props, name, bool(ok), desc))
+        self.scans.append((props, name, bool(ok), desc, on_fail))
 
     def raw(self, text):
         self.parts.append(text)
